@@ -467,7 +467,6 @@ theorem satMul128_le (a b : Nat) : satMul128 a b ≤ a * b := Nat.min_le_left _ 
 theorem validateDoscmint_noCrash {env : Env} {s : State} {rel : Relevant} {tx : Tx}
     (hin : tx.inputs ≠ [])
     (hh : ∀ id c, rel.get id = some c → c.height ≤ s.height)
-    (hpow : ∀ a b c d, env.powOk a b c d ≠ .panics)
     (hdiff : ∀ a b c d, env.powOk a b c d ≠ .invalid → c ≤ 100)
     (hbelow : ∀ h hdr, s.history.get h = some hdr → h < s.height)
     (hspeeds : ∀ h hdr, s.history.get h = some hdr → 0 < hdr.doscSpeed)
@@ -499,8 +498,7 @@ theorem validateDoscmint_noCrash {env : Env} {s : State} {rel : Relevant} {tx : 
             simp only
             split
             · exact NoCrash.reject _
-            · have hnp := hpow (env.hdrHash seedHdr) coinId difficulty tx.hash
-              have key : ∀ v : PowVerdict, env.powOk (env.hdrHash seedHdr) coinId difficulty tx.hash = v →
+            · have key : ∀ v : PowVerdict, env.powOk (env.hdrHash seedHdr) coinId difficulty tx.hash = v →
                   v ≠ .invalid → NoCrash
                     ((computeDoscmintSpeed (decide (v = .tip910)) difficulty s.height coin.height).bind fun mySpeed =>
                       if s.height = 0 then .crash "applytx.rs: height - 1 underflow" else
@@ -546,7 +544,7 @@ theorem validateDoscmint_noCrash {env : Env} {s : State} {rel : Relevant} {tx : 
                   rw [if_neg (Nat.not_lt.mpr hv2), Outcome.ok_bind_c09]
                   exact NoCrash.ite (NoCrash.reject _) (NoCrash.ok _)
               cases hv : env.powOk (env.hdrHash seedHdr) coinId difficulty tx.hash with
-              | panics => exact absurd hv hnp
+              | panics => exact NoCrash.reject _
               | invalid => exact NoCrash.reject _
               | legacy => exact key .legacy hv (by decide)
               | tip910 => exact key .tip910 hv (by decide)
@@ -747,7 +745,6 @@ theorem applyBatch_noCrash (env : Env) (s : State) (txs : List Tx) (fb : Header)
       ≤ U128_MAX)
     (hspeeds : ∀ h hdr, s.history.get h = some hdr → 0 < hdr.doscSpeed)
     (hbelow : ∀ h hdr, s.history.get h = some hdr → h < s.height)
-    (hpow : ∀ a b c d, env.powOk a b c d ≠ .panics)
     (hdiff : ∀ a b c d, env.powOk a b c d ≠ .invalid → c ≤ 100)
     (hfits : ∀ hdr, s.history.get (s.height - 1) = some hdr → ∀ a b d t, env.powOk a b d t ≠ .invalid →
       microergsIter s.height * ((TIP910_WORK_FACTOR * 2 ^ d) * (TIP910_SPEED_FACTOR * 2 ^ d) * MICRO_CONVERTER /
@@ -779,7 +776,7 @@ theorem applyBatch_noCrash (env : Env) (s : State) (txs : List Tx) (fb : Header)
         have hkf : tx.kind ≠ .faucet := by rw [hk]; decide
         exact NoCrash.bind
           (validateDoscmint_noCrash (checkTxValidity_ok_inputs hkf (hall tx htx)) (rel_heights hrel hheights)
-            hpow hdiff hbelow hspeeds hfits)
+            hdiff hbelow hspeeds hfits)
           (fun _ _ => NoCrash.ok _)
       · exact NoCrash.ok _
     · intro newSpeed _
